@@ -22,7 +22,7 @@ func init() {
 			"R14-progress — Find's scan position strictly increases on every iteration of its loop; R14-readonly — nothing reachable from Find writes through the subject slice (which aliases the Lua string's bytes through unsafeFastStringToReadOnlyBytes), and that unsafe view is only ever handed to pm.Find or io.Writer.Write. " +
 			"R14-bytes — no function of package pm calls a rune-aware API (character classes are C-locale byte classes). R14-repl — the replacement-string scanner's one-character lookahead (the %% escape) is guarded by exactly 'the next position exists': neither unguarded (index panic) nor stricter (an escape at the very end of the replacement is left undecoded). R14-index — the matcher's back-reference instruction slices the subject only under lo <= hi <= len(src), and the gmatch iterator indexes its match list only under a length test; R10-retcount shared — a library function does not drop a result it pushed (string.match returns nil, one value, when nothing matches). NOT decided: match extents, captures, gsub assembly; run-time slice/index panics inside the matcher (e.g. a back-reference to a still-open capture).",
 		Trusted: []string{"io.Writer.Write does not modify its argument (io.Writer contract)"},
-		Rules:   []func(*Ctx){ruleNestingCapMeansDeepestAccepted, ruleGsubTableLooksUpLikeLua, ruleParserRecursionCapped, ruleNoSentinelDefaults, ruleRecursionCapFitsTheStack, ruleGsubAnswersAString, ruleOptionalNilAlike, ruleExhaust, rulePmPanics, ruleDepth, ruleProgress, ruleReadonly, rulePmBytes, ruleFlagLookahead, ruleMatchIndexing, ruleRetCount, ruleCaptureIndex, rulePatternSets, ruleRangeEndInsideSet, ruleSearchStartClamped, ruleGsubFalseKeepsMatch},
+		Rules:   []func(*Ctx){ruleRangeBySignedComparisons, ruleNestingCapMeansDeepestAccepted, ruleGsubTableLooksUpLikeLua, ruleParserRecursionCapped, ruleNoSentinelDefaults, ruleRecursionCapFitsTheStack, ruleGsubAnswersAString, ruleOptionalNilAlike, ruleExhaust, rulePmPanics, ruleDepth, ruleProgress, ruleReadonly, rulePmBytes, ruleFlagLookahead, ruleMatchIndexing, ruleRetCount, ruleCaptureIndex, rulePatternSets, ruleRangeEndInsideSet, ruleSearchStartClamped, ruleGsubFalseKeepsMatch},
 	})
 }
 
